@@ -136,10 +136,13 @@ func c18Wide(rt *rapid.T) string {
 	case 5: // a chain of joins
 		k := rapid.IntRange(3, 7).Draw(rt, "wide_joins")
 		var sb strings.Builder
-		sb.WriteString("SELECT count(*), avg(x0.a) FROM t1 x0")
+		// (over `measurements` only: three rows with distinct keys that no generated statement can add to - a
+		// chain over a table that free INSERTs fill with NULL rows is a cross product of astronomic size, which
+		// the 20 s watchdog would take for a hang; it did, once, on the unchanged tree)
+		sb.WriteString("SELECT count(*), avg(x0.a) FROM measurements x0")
 		for j := 1; j < k; j++ {
 			jt := rapid.SampledFrom([]string{"JOIN", "LEFT JOIN", "RIGHT JOIN", "INNER JOIN"}).Draw(rt, "wide_jt")
-			fmt.Fprintf(&sb, " %s %s x%d ON x%d.a = x%d.a", jt, rapid.SampledFrom([]string{"t1", "t0", "t2", "orders"}).Draw(rt, "wide_jtbl"), j, j-1, j)
+			fmt.Fprintf(&sb, " %s measurements x%d ON x%d.a = x%d.a", jt, j, j-1, j)
 		}
 		return sb.String()
 	}
